@@ -182,6 +182,19 @@ func C13(c *Ctx) {
 		}
 		jobs = append(jobs, job{b, pickFlags(), rng.Intn(2) == 0, rng.Intn(2) == 0, "random"})
 	}
+	// deeply nested groups under -cache: the front-end's own parse is memoized there and takes linear
+	// time (without -cache the pinned tree is exponential in the nesting depth - it terminates, but not
+	// within any CPU budget one would want to wait for, so those texts only run with the flag)
+	for _, d := range []int{18, 30, 75} {
+		inner := "'a' / \"bb\" [0-9]+ / x:[a-z]* { return x, nil } / !. 'c'? / &'d' . 'e'+ / 'k'i \"long literal number one\" / [^\\n]+ 'q' / R1 'z' / \"another alternative that makes the group long\"i"
+		if d == 75 {
+			inner = "'a'"
+		}
+		text := "{\npackage p\n}\nR0 <- " + strings.Repeat("( ", d) + inner + strings.Repeat(" )", d) + "\nR1 <- 'r'\n"
+		for _, f := range [][]string{{"-cache"}, {"-cache", "-x"}, {"-cache", "-optimize-grammar"}} {
+			jobs = append(jobs, job{[]byte(text), f, d%2 == 0, false, "nested-cache"})
+		}
+	}
 	// every Unicode class name the front-end accepts (enumerated through the hook), under the flags
 	// that treat classes specially
 	if hook, err := c.W.Hooked(); err == nil {
